@@ -6,6 +6,7 @@ import itertools
 import core
 import gen
 import ops  # noqa: F401
+import srctie_c16
 from ops_attrs import WS_CHARS, chist_line, css_line, css_hyphen, describe
 
 PID = "C16"
@@ -24,7 +25,10 @@ MANIFEST = dict(
          "has_class results, return identity and css() output on histories of <= 5 calls and css keyword sets, "
          "exhaustive small scope + random; the executable (unguarded) statement is evaluated by the Lean driver on the "
          "real answers step by step; str.isspace is tabulated from the running interpreter (all code points) and "
-         "str.lower is applied by the interpreter to exactly the strings css() lower-cases.",
+         "str.lower is applied by the interpreter to exactly the strings css() lower-cases. Source tie (DESIGN §14, "
+         "Props/SrcC16.lean): src_has_class / src_add_class / src_add_style / src_remove_class / src_css prove, for all inputs, "
+         "every whitespace predicate and every lower-casing map, that the Lean functions regenerated from the text of the five "
+         "functions compute what the model computes; the regenerated functions are run against the real ones (ops src, srcc16).",
     design="DESIGN.md §6 C16, §7 F-C16",
     note="Modelled, not verified: str.split()/strip() as functions of the tabulated str.isspace; str.lower as an "
          "opaque whole-string function (CPython's is per-character except for Greek final sigma, so the per-character "
@@ -34,7 +38,7 @@ MANIFEST = dict(
     technique="Lean 4 proofs (split/join algebra generic in the whitespace predicate, closed forms of the update "
               "funnel) + differential correspondence check on histories; recorded finding with proved negation",
 )
-PROP_FILES = ["HtmlVerif/Props/C16.lean"]
+PROP_FILES = ["HtmlVerif/Props/C16.lean", "HtmlVerif/Props/SrcC16.lean"]
 
 INIT_CLASS = [None, ("p", ""), ("p", "a"), ("p", "a b"), ("p", " a  b\ta "), ("h", "a"), ("h", ""), ("p", " \t"),
               ("h", "a ab a"), ("p", "ab a-b a")]
@@ -82,6 +86,8 @@ def nontrivial(attrs, steps) -> bool:
 
 
 def rand_token(rng):
+    if gen.EXTRA and rng.random() < 0.2:      # change-directed: a literal the source has gained (DESIGN §14.4)
+        return rng.choice(gen.EXTRA)
     r = rng.random()
     if r < 0.45:
         return rng.choice(["a", "b", "ab", "a-b", "foo", "foobar", "foo-x", "A", "é", "d<", "x&y", 'q"', "it's"])
@@ -306,6 +312,8 @@ def run(tier: str) -> int:
     ck.assumptions.append(f"str.isspace table: {len(WS_CHARS)} code points, contains U+0020: {' ' in WS_CHARS}")
     if " " not in WS_CHARS:
         raise core.Infra("str.isspace(' ') is false in this interpreter")
+    ck.add_src(['Tag_add_class', 'Tag_add_style'])
+    srctie_c16.add_src_c16(ck, ['Tag_has_class', 'Tag_remove_class', 'util_css'])   # need the str.isspace / str.lower tables
     ck.correspond(holds=True)
     # the recorded finding's witness is replayed on every run: a stale record is reported, not hidden
     known = {k["matcher"]: k for k in core.load_known().get("findings", []) if k["property"] == PID}
